@@ -223,7 +223,7 @@ def run(run_, ctx):
             pass
         run_.ok("W", "heapless::Vec<u8,N> / String<N> at %d capacities" % hl_n, "const asserts hold (crate compiled)", method="const-assert")
     if cr is not None:
-        run_.floor("W", 60)
+        run_.floor("W", 74)
     run_.extra["const_assertions"] = len(asserts) + 2 * hl_n
     run_.explanation = (
         "All %d `impl MaxSize` constants of postcard are read as resolved HIR trees, turned into polynomials over type-parameter atoms and compared with the "
